@@ -330,6 +330,15 @@ impl Join {
                     columns,
                     string_pool.long_string_refs(),
                 );
+                // Validate the condition.
+                for column_name in condition.column_names().into_iter() {
+                    if !table.has_column(column_name) {
+                        invalid_input!(
+                            "Joined table has no column named {:?}",
+                            column_name
+                        );
+                    }
+                }
                 let mut rows = Vec::<Vec<ValueRef>>::new();
                 for value_refs1 in rows1.iter() {
                     for value_refs2 in rows2.iter() {
@@ -370,6 +379,15 @@ impl Join {
                     columns,
                     string_pool.long_string_refs(),
                 );
+                // Validate the condition.
+                for column_name in condition.column_names().into_iter() {
+                    if !table.has_column(column_name) {
+                        invalid_input!(
+                            "Joined table has no column named {:?}",
+                            column_name
+                        );
+                    }
+                }
                 let mut rows = Vec::<Vec<ValueRef>>::new();
                 for value_refs1 in rows1.iter() {
                     let mut found_any = false;
